@@ -284,10 +284,11 @@ class C18(Prop):
       '(hand-written from functor.py, object.py, class_wrapper.py; tied by correspondence only)',
       'outside the model: docstring parsing, auto_typing conversion of annotations (exercised by the '
       'generator, assumed value-preserving for int), return-value specs, functor auto-call scope, '
-      'pg.compound, subclassed functors (`class F(pg.Functor)`), positional-only parameters, MISSING_VALUE '
+      'pg.compound, subclassed functors (`class F(pg.Functor)`), MISSING_VALUE '
       'passed as an argument, non-scalar argument values',
   ]
   assumptions = ['argument values are ints (opaque scalars); no argument is pg.MISSING_VALUE',
+                 'positional-only parameters are not passed by keyword (known finding F62)',
                  'keywords are not named like the *args parameter (pyglove exposes it as a symbolic field)']
 
   # -- generation -------------------------------------------------------------------------
